@@ -184,7 +184,19 @@ theorem resolved_bytes_under_root (root p : Bytes) (hr : isRooted root = true) (
     · rw [comps_clean_rooted p hp] at h; exact cleanComps_rooted_plain _ x h
   · rw [comps_clean_rooted p hp]; exact clean_rooted_has_no_dotdot _
 
+/-- **Every answer is about the file as it is now.** After any history of rewrites and requests on one
+served path, a request is answered from the content most recently written — size, clamping, the 416
+test, `Content-Range` total and the bytes all follow the current file, never an earlier one — so all
+theorems above apply to it with `content :=` the current content. -/
+theorem answer_follows_current_file (disk : Bytes) (ops : List FileOp) (hdr : Option Bytes) :
+    (fileStep (fileRun disk ops) (.get hdr)).2 = some (respond (lastWritten disk ops) hdr) := by
+  induction ops generalizing disk with
+  | nil => rfl
+  | cons op ops ih => cases op <;> simpa [fileRun, fileStep, lastWritten] using ih _
+
 /-! Non-vacuity / sanity on concrete inputs (tests, labelled as such). -/
+example : (fileStep (fileRun (strBytes "0123456789") [.get none, .write (strBytes "0123")]) (.get (some (strBytes "bytes=2-7")))).2
+    = some (.single 2 3 4 (strBytes "23")) := by decide
 example : respond (strBytes "0123456789") (some (strBytes "bytes=5-20"))
     = .single 5 9 10 (strBytes "56789") := by decide
 example : respond (strBytes "0123456789") (some (strBytes "bytes=2-"))
